@@ -370,6 +370,20 @@ def _is_negative_constant(term: Any) -> bool:
     )
 
 
+def _leads_with_minus(term: Any) -> bool:
+    """
+    Does the text of this term begin with a minus sign - decided on the structure, so that the answer is the same
+    for the inline and the parameterised rendering.
+    """
+    if isinstance(term, Negative) or _is_negative_constant(term):
+        return True
+    if isinstance(term, ArithmeticExpression):
+        left_op = getattr(term.left, "operator", None)
+        if not term.left_needs_parens(term.operator, left_op):
+            return _leads_with_minus(term.left)
+    return False
+
+
 class Negative(Term):
     def __init__(self, term: Term) -> None:
         super().__init__()
@@ -394,7 +408,7 @@ class Negative(Term):
         # -(a+1) must not become -a+1, and a second minus must not form the "--" comment opener
         if (
             isinstance(self.term, ArithmeticExpression)
-            or _is_negative_constant(self.term)
+            or _leads_with_minus(self.term)
             or term_sql.startswith("-")
         ):
             term_sql = "({})".format(term_sql)
@@ -1275,7 +1289,7 @@ class ArithmeticExpression(Term):
         right_sql = self.right.get_sql(operand_ctx)
         right_parens = self.right_needs_parens(self.operator, right_op)
         if self.operator == Arithmetic.sub and (
-            _is_negative_constant(self.right) or right_sql.startswith("-")
+            _leads_with_minus(self.right) or right_sql.startswith("-")
         ):
             # a - -1 would otherwise be written a--1, which opens a comment
             right_parens = True
